@@ -795,3 +795,6 @@ LEVEL_TEXT = "exploration"
 LEVEL_NOTE = ("metamorphic relations on generated programs; the stub supplement is exhaustive only over the listed "
               "table of ranges and three extreme uniforms")
 TECHNIQUE = "Hypothesis op-list programs + metamorphic oracle (twin / reset / restore / independence / step) + stubbed generator"
+
+
+RULE = RULE + " " + 'Later additions: in a third of the histories every third operation is carried out by another thread (started and joined, no concurrency).'
